@@ -2,36 +2,1098 @@
 
 mod ops;
 mod refs;
+mod zk;
 
+use std::{
+    collections::{BTreeMap, BTreeSet, HashMap},
+    sync::{atomic::Ordering, Mutex},
+};
+
+use ff::Field;
+use midnight_proofs::verif::{Fault, Mode};
 use num_bigint::BigUint;
+use num_traits::{One, Zero};
 use ops::*;
 use refs::*;
-use vgad::OpCase;
+use serde_json::json;
+use vcore::{big::Fp as ModP, catch, CaseOut, Ctx, Level, Tier, Viol};
+use vgad::{val::*, Judgement, OpCase, Outcome, F};
 
-fn main() {
-    vcore::install_panic_hook();
-    // bring-up probe
-    for cv in [Cv::Jub, Cv::Secp, Cv::Bls] {
-        let g = RP::generator(cv);
-        let p = |l: &str, rp: RP| V::Pt(P { label: l.into(), rp });
-        let s = |v: u64| V::Sc(S { label: format!("{v}"), v: BigUint::from(v) });
-        let big = V::Sc(S { label: "r-1".into(), v: cv.r() - 1u32 });
-        let cases = vec![
-            Case { cv, op: Op::Assign, ins: vec![p("G", g)] },
-            Case { cv, op: Op::Double, ins: vec![p("G", g)] },
-            Case { cv, op: Op::Add, ins: vec![p("G", g), p("2G", g.double())] },
-            Case { cv, op: Op::Negate, ins: vec![p("G", g)] },
-            Case { cv, op: Op::MulByConst(S { label: "5".into(), v: BigUint::from(5u32) }), ins: vec![p("G", g)] },
-            Case { cv, op: Op::Msm { ns: 1, nb: 1, terms: vec![(SRef::In(0), BRef::In(0))], bounds: None }, ins: vec![s(7), p("G", g)] },
-            Case { cv, op: Op::Msm { ns: 1, nb: 1, terms: vec![(SRef::In(0), BRef::In(0))], bounds: None }, ins: vec![big, p("G", g)] },
-            Case { cv, op: Op::Msm { ns: 2, nb: 2, terms: vec![(SRef::In(0), BRef::In(0)), (SRef::In(1), BRef::In(1))], bounds: None }, ins: vec![s(7), s(9), p("G", g), p("2G", g.double())] },
-        ];
-        for c in cases {
-            let t = std::time::Instant::now();
-            let k = vgad::min_k(&c);
-            let tk = t.elapsed();
-            let r = vcore::in_pool(1, || vgad::run_once(&c, k.clone().unwrap(), vec![], false));
-            println!("{} k={k:?} ({tk:?}) {:?} n={} untamp={} t={:?} judge={:?}", c.key(), r.outcome, r.n_assign, r.untamperable, t.elapsed(), c.judge(&r.ins, &r.outs));
+// ---------------------------------------------------------------------------------------------
+// operand alphabets
+// ---------------------------------------------------------------------------------------------
+
+struct Alph {
+    cv: Cv,
+    /// valid values of the curve's assignment type: Id, G, 2G, P0, -P0, P1
+    pts: Vec<P>,
+    /// curve points outside the prime-order subgroup (BLS: assignable; Jubjub: only usable as
+    /// coordinates, must be rejected)
+    outside: Vec<P>,
+    /// coordinate pairs that are not on the curve
+    off_curve: Vec<(String, BigUint, BigUint)>,
+    /// scalars < r
+    scalars: Vec<S>,
+}
+
+fn pt(label: &str, rp: RP) -> P {
+    P { label: label.to_string(), rp }
+}
+
+fn sc(label: &str, v: BigUint) -> S {
+    S { label: label.to_string(), v }
+}
+
+fn seeded_scalar(cv: Cv, seed: u64, stream: &str) -> BigUint {
+    let mut rng = vcore::rng_for(seed, &format!("c06-{}-{stream}", cv.name()));
+    vcore::big::random_below(&mut rng, &cv.r())
+}
+
+/// Jubjub point with the given v (= y) coordinate, if any.
+fn jub_from_y(y: &BigUint) -> Option<RP> {
+    let p = Cv::Jub.p();
+    let m = ModP::new(p.clone());
+    // d = -(10240/10241)
+    let d = m.neg(&m.div(&BigUint::from(10240u32), &BigUint::from(10241u32)).unwrap());
+    let y2 = m.sqr(y);
+    let num = m.sub(&y2, &BigUint::one());
+    let den = m.add(&BigUint::one(), &m.mul(&d, &y2));
+    let x2 = m.div(&num, &den)?;
+    let x = sqrt_mod(Cv::Jub, &x2)?;
+    RP::from_xy(Cv::Jub, &x, y)
+}
+
+fn alphabet(cv: Cv, seed: u64) -> Alph {
+    let g = RP::generator(cv);
+    let r = cv.r();
+    let p = cv.p();
+    let p0 = g.mul_int(&seeded_scalar(cv, seed, "p0"));
+    let p1 = g.mul_int(&seeded_scalar(cv, seed, "p1"));
+    let pts = vec![pt("Id", RP::identity(cv)), pt("G", g), pt("2G", g.double()), pt("P0", p0), pt("-P0", p0.neg()), pt("P1", p1)];
+    let mut outside = vec![];
+    match cv {
+        Cv::Jub => {
+            // a point of order 8: r * Q for a curve point Q whose 8-torsion component is a generator
+            let mut y = BigUint::from(2u32);
+            let t8 = loop {
+                if let Some(q) = jub_from_y(&y) {
+                    let t = q.mul_int(&r);
+                    if !t.double().double().is_identity() {
+                        break t;
+                    }
+                }
+                y += 1u32;
+            };
+            outside.push(pt("T8", t8));
+            outside.push(pt("T4", t8.double()));
+            outside.push(pt("T2", t8.double().double()));
+            outside.push(pt("P0+T8", p0.add(&t8)));
+            outside.push(pt("P0+T2", p0.add(&t8.double().double())));
+        }
+        Cv::Secp => {}
+        Cv::Bls => {
+            // order-3 point (0, 2) and a point of large order outside G1
+            outside.push(pt("T3", RP::from_xy(cv, &BigUint::zero(), &BigUint::from(2u32)).expect("(0,2) is on y^2 = x^3 + 4")));
+            let mut x = BigUint::from(1u32);
+            let n0 = loop {
+                let rhs = (&x * &x * &x + 4u32) % &p;
+                if let Some(y) = sqrt_mod(cv, &rhs) {
+                    let q = RP::from_xy(cv, &x, &y).expect("on curve");
+                    if !q.in_subgroup() {
+                        break q;
+                    }
+                }
+                x += 1u32;
+            };
+            outside.push(pt("N0", n0));
         }
     }
+    let (x0, y0, _) = p0.xy();
+    let (gx, gy, _) = g.xy();
+    let mut off_curve = vec![
+        ("(0,0)".to_string(), BigUint::zero(), BigUint::zero()),
+        ("(1,1)".to_string(), BigUint::one(), BigUint::one()),
+        ("(P0.x+1,P0.y)".to_string(), (&x0 + 1u32) % &p, y0.clone()),
+        ("(P0.x,P0.y+1)".to_string(), x0.clone(), (&y0 + 1u32) % &p),
+        ("(G.y,G.x)".to_string(), gy.clone(), gx.clone()),
+        ("(p-1,p-1)".to_string(), &p - 1u32, &p - 1u32),
+    ];
+    if cv != Cv::Jub {
+        // the Jubjub identity convention must not leak into the Weierstrass chips
+        off_curve.push(("(0,1)".to_string(), BigUint::zero(), BigUint::one()));
+    }
+    off_curve.retain(|(_, x, y)| !on_curve(cv, x, y));
+    let scalars = vec![
+        sc("0", BigUint::zero()),
+        sc("1", BigUint::one()),
+        sc("2", BigUint::from(2u32)),
+        sc("r-1", &r - 1u32),
+        sc("(r-1)/2", (&r - 1u32) >> 1),
+        sc("2^128", BigUint::one() << 128),
+        sc("s0", seeded_scalar(cv, seed, "s0")),
+        sc("s1", seeded_scalar(cv, seed, "s1")),
+    ];
+    Alph { cv, pts, outside, off_curve, scalars }
+}
+
+impl Alph {
+    fn p(&self, label: &str) -> P {
+        self.pts.iter().chain(self.outside.iter()).find(|p| p.label == label).unwrap_or_else(|| panic!("no point {label}")).clone()
+    }
+    fn s(&self, label: &str) -> S {
+        self.scalars.iter().find(|s| s.label == label).unwrap_or_else(|| panic!("no scalar {label}")).clone()
+    }
+}
+
+// ---------------------------------------------------------------------------------------------
+// case generation
+// ---------------------------------------------------------------------------------------------
+
+fn msm_case(cv: Cv, scalars: Vec<S>, bases: Vec<P>, terms: Vec<(SRef, BRef)>, bounds: Option<Vec<usize>>) -> Case {
+    let mut ins: Vec<V> = scalars.iter().cloned().map(V::Sc).collect();
+    ins.extend(bases.iter().cloned().map(V::Pt));
+    Case { cv, op: Op::Msm { ns: scalars.len(), nb: bases.len(), terms, bounds }, ins, lenient: false }
+}
+
+/// plain msm: term i = scalar i * base i
+fn msm_plain(cv: Cv, scalars: Vec<S>, bases: Vec<P>) -> Case {
+    let terms = (0..scalars.len()).map(|i| (SRef::In(i), BRef::In(i))).collect();
+    msm_case(cv, scalars, bases, terms, None)
+}
+
+fn bytes_of(v: &BigUint, n: usize) -> Vec<V> {
+    vcore::big::to_le(v, n).into_iter().map(V::Byte).collect()
+}
+
+
+/// BLS: a point outside G1 together with a cofactor "root" that the (defective) constant
+/// multiplication of the subgroup check maps onto it, if one exists. The check multiplies by the
+/// constant mul_by_constant really applies to the 126-bit cofactor; with a correct multiplication
+/// no such root exists (h * R is always in G1).
+fn forged_subgroup_case(a: &Alph) -> Option<Case> {
+    let cv = Cv::Bls;
+    let h = BigUint::parse_bytes(b"396c8c005555e1568c00aaab0000aaab", 16).unwrap();
+    let group_order = &h * cv.r();
+    // the root is built for the sum of the 64-bit digits of h: the multiplier observed in the
+    // honest MulByConst violations (mul_by_constant(2^64, P) = P, mul_by_constant(2^64+1, P) = 2P)
+    let mask = (BigUint::one() << 64) - 1u32;
+    let n_eff = (&h & &mask) + (&h >> 64);
+    // p = 3 * N0 has order dividing |E|/3, which is coprime to n_eff
+    let p = a.p("N0").rp.mul_int(&BigUint::from(3u32));
+    if p.in_subgroup() || p.is_identity() {
+        return None;
+    }
+    let m = &group_order / 3u32;
+    let inv = mod_inverse(&n_eff, &m)?;
+    let root = p.mul_int(&inv);
+    if root.mul_int(&n_eff) != p {
+        return None;
+    }
+    Some(Case { cv, op: Op::SubgroupCheckChosenRoot, ins: vec![V::Pt(pt("3*N0", p)), V::Pt(pt("root(3*N0)", root))], lenient: false })
+}
+
+fn mod_inverse(a: &BigUint, m: &BigUint) -> Option<BigUint> {
+    use num_bigint::BigInt;
+    use num_integer::Integer;
+    let (a, m) = (BigInt::from(a.clone()), BigInt::from(m.clone()));
+    let e = a.extended_gcd(&m);
+    if !e.gcd.is_one() {
+        return None;
+    }
+    Some(e.x.mod_floor(&m).to_biguint().unwrap())
+}
+
+/// `full`: the complete registry of the curve; otherwise the reduced "light" list used for the
+/// BLS curve in the quick tier.
+fn cases_for(a: &Alph, tier: Tier, seed: u64, full: bool) -> Vec<Case> {
+    let cv = a.cv;
+    let r = cv.r();
+    let mut out: Vec<Case> = vec![];
+    let mut push = |c: Case| out.push(c);
+    let vp = |p: &P| V::Pt(p.clone());
+    // points that can be assigned on this curve
+    let mut assignable: Vec<P> = a.pts.clone();
+    if cv == Cv::Bls {
+        assignable.extend(a.outside.iter().cloned());
+    }
+    if !full {
+        // BLS in the quick tier: honest runs around the points outside G1 and the constants of
+        // mul_by_constant
+        for p in &assignable {
+            push(Case { cv, op: Op::Assign, ins: vec![vp(p)], lenient: false });
+            push(Case { cv, op: Op::Double, ins: vec![vp(p)], lenient: false });
+        }
+        for (x, y) in [("T3", "T3"), ("T3", "N0"), ("N0", "N0"), ("G", "T3"), ("P0", "-P0"), ("Id", "N0")] {
+            push(Case { cv, op: Op::Add, ins: vec![vp(&a.p(x)), vp(&a.p(y))], lenient: false });
+        }
+        for k in [sc("3", BigUint::from(3u32)), sc("2^64+1", (BigUint::one() << 64) + 1u32)] {
+            for p in ["G", "T3", "N0"] {
+                // the foreign chip assumes "no low-order points": multiples of the order-3 point run
+                // into its incomplete additions, completeness is not required there
+                push(Case { cv, op: Op::MulByConst(k.clone()), ins: vec![vp(&a.p(p))], lenient: p == "T3" });
+            }
+        }
+        for p in ["G", "Id", "N0", "T3"] {
+            push(Case { cv, op: Op::AssertInSubgroup, ins: vec![vp(&a.p(p))], lenient: false });
+        }
+        if let Some(c) = forged_subgroup_case(a) {
+            push(c);
+        }
+        return out;
+    }
+    // ---- unary
+    for p in &assignable {
+        push(Case { cv, op: Op::Assign, ins: vec![vp(p)], lenient: false });
+    }
+    for p in &a.pts {
+        push(Case { cv, op: Op::AssignFixed(p.clone()), ins: vec![], lenient: false });
+    }
+    for p in &assignable {
+        for op in [Op::Negate, Op::Double, Op::Coords, Op::IsZero, Op::AssertZero, Op::AssertNonZero] {
+            push(Case { cv, op, ins: vec![vp(p)], lenient: false });
+        }
+    }
+    for q in ["Id", "G", "P0"] {
+        for p in ["Id", "G", "P0", "-P0"] {
+            for op in [Op::IsEqualToFixed(a.p(q)), Op::AssertEqualToFixed(a.p(q)), Op::AssertNotEqualToFixed(a.p(q))] {
+                push(Case { cv, op, ins: vec![vp(&a.p(p))], lenient: false });
+            }
+        }
+    }
+    // ---- point_from_coordinates: on-curve, outside the subgroup, off-curve
+    for p in a.pts.iter().chain(a.outside.iter()) {
+        let (x, y, id) = p.rp.xy();
+        if id && cv != Cv::Jub {
+            continue; // (0,0) is in the off-curve list
+        }
+        push(Case { cv, op: Op::FromCoords, ins: vec![V::Co(format!("{}.x", p.label), x), V::Co(format!("{}.y", p.label), y)], lenient: false });
+    }
+    for (l, x, y) in &a.off_curve {
+        push(Case { cv, op: Op::FromCoords, ins: vec![V::Co(format!("{l}.x"), x.clone()), V::Co(format!("{l}.y"), y.clone())], lenient: false });
+    }
+    // ---- add: the full product of the assignable points (quick, foreign: a covering list)
+    if cv == Cv::Jub || tier.is_thorough() {
+        for p in &assignable {
+            for q in &assignable {
+                push(Case { cv, op: Op::Add, ins: vec![vp(p), vp(q)], lenient: false });
+            }
+        }
+    } else {
+        for (x, y) in [("G", "2G"), ("Id", "Id"), ("Id", "G"), ("G", "Id"), ("G", "G"), ("P0", "-P0"), ("-P0", "P0"), ("P0", "P0"), ("P0", "P1"), ("2G", "G"), ("P1", "Id")] {
+            push(Case { cv, op: Op::Add, ins: vec![vp(&a.p(x)), vp(&a.p(y))], lenient: false });
+        }
+    }
+    // ---- binary predicates / control flow on a diagonal of pairs
+    let pairs = [("Id", "Id"), ("Id", "G"), ("G", "Id"), ("G", "G"), ("P0", "-P0"), ("P0", "P1"), ("P0", "P0")];
+    for (x, y) in pairs {
+        for op in [Op::IsEqual, Op::IsNotEqual, Op::AssertEqual, Op::AssertNotEqual] {
+            push(Case { cv, op, ins: vec![vp(&a.p(x)), vp(&a.p(y))], lenient: false });
+        }
+        for b in [false, true] {
+            for op in [Op::Select, Op::CondSwap, Op::CondAssertEqual] {
+                push(Case { cv, op, ins: vec![V::Bit(b), vp(&a.p(x)), vp(&a.p(y))], lenient: false });
+            }
+        }
+    }
+    // ---- mul_by_constant
+    let mut consts = vec![
+        sc("0", BigUint::zero()),
+        sc("1", BigUint::one()),
+        sc("2", BigUint::from(2u32)),
+        sc("3", BigUint::from(3u32)),
+        sc("8", BigUint::from(8u32)),
+        sc("2^64-1", (BigUint::one() << 64) - 1u32),
+        sc("2^64", BigUint::one() << 64),
+        sc("2^64+1", (BigUint::one() << 64) + 1u32),
+        sc("2^127+5", (BigUint::one() << 127) + 5u32),
+        sc("2^128-1", (BigUint::one() << 128) - 1u32),
+        sc("2^128", BigUint::one() << 128),
+        sc("r-1", &r - 1u32),
+        a.s("s0"),
+    ];
+    if !tier.is_thorough() && cv != Cv::Jub {
+        // the full-size constants go through the windowed msm (k >= 14): thorough only
+        consts.retain(|c| c.v.bits() <= 128);
+    }
+    for k in &consts {
+        for p in ["P0", "Id", "G"] {
+            if p == "G" && k.v.bits() > 3 && !tier.is_thorough() {
+                continue;
+            }
+            push(Case { cv, op: Op::MulByConst(k.clone()), ins: vec![vp(&a.p(p))], lenient: false });
+        }
+    }
+    if cv == Cv::Bls {
+        for k in ["2", "3", "2^64+1"] {
+            for p in ["T3", "N0"] {
+                push(Case { cv, op: Op::MulByConst(consts.iter().find(|c| c.label == k).unwrap().clone()), ins: vec![vp(&a.p(p))], lenient: p == "T3" });
+            }
+        }
+        for p in ["G", "P0", "Id", "N0", "T3"] {
+            push(Case { cv, op: Op::AssertInSubgroup, ins: vec![vp(&a.p(p))], lenient: false });
+        }
+        if let Some(c) = forged_subgroup_case(a) {
+            push(c);
+        }
+    }
+    // ---- msm
+    let foreign = cv != Cv::Jub;
+    // size 1: every scalar class on P0; a few on Id and G
+    for s in &a.scalars {
+        push(msm_plain(cv, vec![s.clone()], vec![a.p("P0")]));
+    }
+    for s in ["0", "1", "s0"] {
+        push(msm_plain(cv, vec![a.s(s)], vec![a.p("Id")]));
+        push(msm_plain(cv, vec![a.s(s)], vec![a.p("G")]));
+    }
+    // fixed scalars / fixed bases (for the foreign chip: scalar 1 is peeled off, 0 * P, fixed identity base)
+    for s in ["0", "1", "2", "r-1"] {
+        push(msm_case(cv, vec![], vec![a.p("P0")], vec![(SRef::Fixed(a.s(s)), BRef::In(0))], None));
+    }
+    push(msm_case(cv, vec![a.s("s0")], vec![], vec![(SRef::In(0), BRef::Fixed(a.p("G")))], None));
+    push(msm_case(cv, vec![a.s("s0")], vec![], vec![(SRef::In(0), BRef::Fixed(a.p("Id")))], None));
+    // size 2: the accumulator reaches the identity / equals the next addend
+    let in2 = || vec![(SRef::In(0), BRef::In(0)), (SRef::In(1), BRef::In(1))];
+    push(msm_case(cv, vec![a.s("1"), a.s("r-1")], vec![a.p("P0"), a.p("P0")], in2(), None)); // P - P, two variables with the same value
+    push(msm_case(cv, vec![a.s("1"), a.s("r-1")], vec![a.p("P0")], vec![(SRef::In(0), BRef::In(0)), (SRef::In(1), BRef::In(0))], None)); // same base variable twice
+    push(msm_case(cv, vec![a.s("1"), a.s("1")], vec![a.p("P0"), a.p("P0")], in2(), None)); // P + P
+    push(msm_case(cv, vec![a.s("s0"), a.s("s0")], vec![a.p("P0"), a.p("-P0")], in2(), None)); // sP - sP
+    push(msm_case(cv, vec![a.s("s0")], vec![a.p("P0"), a.p("P1")], vec![(SRef::In(0), BRef::In(0)), (SRef::In(0), BRef::In(1))], None)); // same scalar variable twice
+    push(msm_case(cv, vec![a.s("s0"), a.s("s1")], vec![a.p("P0"), a.p("P1")], in2(), None));
+    push(msm_case(cv, vec![a.s("s0"), a.s("s1")], vec![a.p("Id"), a.p("P1")], in2(), None));
+    push(msm_case(cv, vec![a.s("0"), a.s("0")], vec![a.p("P0"), a.p("P1")], in2(), None));
+    push(msm_case(cv, vec![a.s("s0")], vec![a.p("P0"), a.p("P1")], vec![(SRef::Fixed(a.s("1")), BRef::In(0)), (SRef::In(0), BRef::In(1))], None));
+    // size 3
+    let in3 = || vec![(SRef::In(0), BRef::In(0)), (SRef::In(1), BRef::In(1)), (SRef::In(2), BRef::In(2))];
+    push(msm_case(cv, vec![a.s("2"), a.s("r-1"), a.s("r-1")], vec![a.p("P0"), a.p("P0"), a.p("P0")], in3(), None)); // 2P - P - P
+    push(msm_case(cv, vec![a.s("s0"), a.s("s1"), a.s("2")], vec![a.p("P0"), a.p("P1"), a.p("G")], in3(), None));
+    push(msm_case(cv, vec![a.s("1"), a.s("1"), a.s("r-1")], vec![a.p("P0"), a.p("-P0"), a.p("G")], in3(), None));
+    // bounded scalars (in-contract bounds only)
+    push(msm_case(cv, vec![sc("3", BigUint::from(3u32)), sc("1025", BigUint::from(1025u32))], vec![a.p("P0"), a.p("P1")], in2(), Some(vec![4, 12])));
+    push(msm_case(cv, vec![sc("15", BigUint::from(15u32))], vec![a.p("P0")], vec![(SRef::In(0), BRef::In(0))], Some(vec![4])));
+    push(msm_case(cv, vec![a.s("2^128")], vec![a.p("P0")], vec![(SRef::In(0), BRef::In(0))], Some(vec![129])));
+    push(msm_case(cv, vec![a.s("s0"), sc("3", BigUint::from(3u32))], vec![a.p("P0"), a.p("Id")], in2(), Some(vec![r.bits() as usize, 2])));
+    // larger sizes (Jubjub; thorough)
+    if tier.is_thorough() && !foreign {
+        let mut rng = vcore::rng_for(seed, "c06-msm-big");
+        for n in 4..=8usize {
+            let g = RP::generator(cv);
+            let scalars: Vec<S> = (0..n).map(|i| sc(&format!("m{n}s{i}"), vcore::big::random_below(&mut rng, &r))).collect();
+            let bases: Vec<P> = (0..n).map(|i| pt(&format!("m{n}b{i}"), g.mul_int(&vcore::big::random_below(&mut rng, &r)))).collect();
+            push(msm_plain(cv, scalars.clone(), bases.clone()));
+            // the running sum returns to the identity after every second term
+            let mut sc2 = vec![];
+            let mut b2 = vec![];
+            for i in 0..n {
+                sc2.push(if i % 2 == 0 { a.s("s0") } else { sc("r-s0", &r - &a.s("s0").v) });
+                b2.push(a.p("P0"));
+            }
+            push(msm_plain(cv, sc2, b2));
+        }
+    }
+    // ---- Jubjub: scalars from bytes / from a native element, hash to curve
+    if cv == Cv::Jub {
+        let q = cv.p();
+        let mut rng = vcore::rng_for(seed, "c06-jub-bytes");
+        let two256: BigUint = BigUint::one() << 256usize;
+        let vals32: Vec<(&str, BigUint)> = vec![
+            ("0", BigUint::zero()),
+            ("1", BigUint::one()),
+            ("r-1", &r - 1u32),
+            ("r", r.clone()),
+            ("r+1", &r + 1u32),
+            ("2^252-1", (BigUint::one() << 252) - 1u32),
+            ("q", q.clone()),
+            ("2^255", BigUint::one() << 255),
+            ("2^256-1", two256.clone() - BigUint::one()),
+            ("seeded", vcore::big::random_below(&mut rng, &two256)),
+        ];
+        for (_, v) in &vals32 {
+            push(Case { cv, op: Op::ScalarFromBytes(32), ins: bytes_of(v, 32), lenient: false });
+            let mut ins = bytes_of(v, 32);
+            ins.push(vp(&a.p("P0")));
+            push(Case { cv, op: Op::MulBytes(32), ins, lenient: false });
+        }
+        for (n, v) in [(1usize, BigUint::from(0xffu32)), (1, BigUint::zero()), (2, BigUint::from(0x1234u32)), (31, (BigUint::one() << 248) - 1u32), (33, (BigUint::one() << 264) - 1u32), (33, &r + 5u32)] {
+            push(Case { cv, op: Op::ScalarFromBytes(n), ins: bytes_of(&v, n), lenient: false });
+            let mut ins = bytes_of(&v, n);
+            ins.push(vp(&a.p("G")));
+            push(Case { cv, op: Op::MulBytes(n), ins, lenient: false });
+        }
+        let mut ins = bytes_of(&r, 32);
+        ins.push(vp(&a.p("Id")));
+        push(Case { cv, op: Op::MulBytes(32), ins, lenient: false });
+        let nats: Vec<BigUint> = vec![BigUint::zero(), BigUint::one(), &r - 1u32, r.clone(), &r + 1u32, &q - 1u32, to_big(&F::random(&mut rng))];
+        for v in &nats {
+            push(Case { cv, op: Op::ScalarFromNative, ins: vec![V::Nat(from_big(v))], lenient: false });
+            push(Case { cv, op: Op::MulNative, ins: vec![V::Nat(from_big(v)), vp(&a.p("P0"))], lenient: false });
+        }
+        let pool: Vec<F> = vec![F::ZERO, F::ONE, -F::ONE, F::random(&mut rng), F::random(&mut rng), F::random(&mut rng)];
+        for n in 0..=4usize {
+            for shift in 0..tier.pick(2usize, 4usize) {
+                let ins: Vec<V> = (0..n).map(|i| V::Nat(pool[(i * 2 + shift * 3 + n) % pool.len()])).collect();
+                push(Case { cv, op: Op::HashToCurve(n), ins, lenient: false });
+            }
+        }
+    }
+    out
+}
+
+// ---------------------------------------------------------------------------------------------
+// extra exploration modes (on top of vgad's)
+// ---------------------------------------------------------------------------------------------
+
+/// 0 deviations only (used where the full `explore_honest` — one complete re-verification per
+/// exposed value and lie — is too expensive): verdict + reference on the exposed vector.
+fn light_honest(case: &Case, k: u32, out: &mut CaseOut) -> (Outcome, u64) {
+    let run = vgad::run_once(case, k, vec![], false);
+    out.eval(&format!("honest:{}", run.outcome.name()), true);
+    let detail = json!({"case": case.key()});
+    match (&run.outcome, case.expect_sat()) {
+        (Outcome::Sat, true) => {
+            if let Judgement::Wrong(w) = case.judge(&run.ins, &run.outs) {
+                out.viol(Viol::new(format!("{}:honest-result-wrong", case.op()), format!("honest circuit is satisfied but its exposed result contradicts the reference: {w}"), detail));
+            }
+        }
+        (Outcome::Sat, false) => {
+            if let Judgement::Wrong(w) = case.judge(&run.ins, &run.outs) {
+                out.viol(Viol::new(format!("{}:out-of-domain-accepted", case.op()), format!("input outside the documented domain is accepted: {w}"), detail));
+            }
+        }
+        (o, true) => {
+            let what = match o {
+                Outcome::Unsat(e) => format!("unsatisfiable: {e}"),
+                Outcome::SynthErr(e) => format!("synthesis error: {e}"),
+                Outcome::Panic(e) => format!("panic: {e}"),
+                Outcome::Sat => unreachable!(),
+            };
+            out.viol(Viol::new(format!("{}:completeness:{}", case.op(), o.name()), format!("honest witness for an admissible input is not accepted — {what}"), detail));
+        }
+        (_, false) => {}
+    }
+    (run.outcome, run.n_assign)
+}
+
+/// 1 deviation, table-only mode: the i-th assigned cell of the table is changed while the
+/// library's witness code (and therefore every exposed value) stays honest. An accepted run
+/// means that the cell is not constrained by anything ("free cell"); it cannot contradict the
+/// reference (the exposed vector is the honest one) unless the judge says so.
+fn explore_table_faults(case: &Case, k: u32, idxs: &[u64], faults: &[(&'static str, Fault)], out: &mut CaseOut, free: &Mutex<BTreeSet<String>>) {
+    for &idx in idxs {
+        for (fname, fault) in faults {
+            let run = vgad::run_once(case, k, vec![(idx, fault.clone(), Mode::TableOnly)], false);
+            match run.applied.first().map(|a| a.changed) {
+                None => {
+                    out.count("tfault:not-reached", 1);
+                    continue;
+                }
+                Some(false) => {
+                    out.count("tfault:value-unchanged", 1);
+                    continue;
+                }
+                Some(true) => {}
+            }
+            out.eval(&format!("tfault:{}", run.outcome.name()), true);
+            if run.outcome == Outcome::Sat {
+                let a = &run.applied[0];
+                match case.judge(&run.ins, &run.outs) {
+                    Judgement::Holds => {
+                        out.count("tfault:accepted-free-cell", 1);
+                        free.lock().unwrap().insert(format!("{} column {} offset {} (assignment #{idx} of {}, fault {fname})", case.op(), a.column, a.offset, run.n_assign));
+                    }
+                    Judgement::Wrong(w) => out.viol(Viol::new(
+                        format!("{}:unsound-under-1-table-deviation", case.op()),
+                        format!("advice assignment #{idx} (column {}, region offset {}) replaced in the table by fault {fname}: circuit still satisfied although {w}", a.column, a.offset),
+                        json!({"case": case.key(), "assignment_index": idx, "fault": fname}),
+                    )),
+                }
+            }
+        }
+    }
+}
+
+
+/// In replay mode the runner executes only the case named in the replay file; the later phases of
+/// this check depend on results of the earlier ones (k, number of assignments), so the target is
+/// parsed here and those results are recomputed directly for it.
+struct ReplayTarget {
+    /// key of the underlying (curve, operation, inputs) case
+    base: String,
+    /// stride encoded in a fault-group key
+    stride: Option<u64>,
+}
+
+fn replay_target() -> Option<ReplayTarget> {
+    let args: Vec<String> = std::env::args().collect();
+    let i = args.iter().position(|a| a == "--replay")?;
+    let txt = std::fs::read_to_string(args.get(i + 1)?).ok()?;
+    let v: serde_json::Value = serde_json::from_str(&txt).ok()?;
+    let key = v["case_key"].as_str()?.to_string();
+    let rest = key.split_once('/').map(|x| x.1.to_string()).unwrap_or(key);
+    // strip "#chunk" and "@s<stride>"
+    let (rest, _) = match rest.rfind('#') {
+        Some(p) if rest[p + 1..].chars().all(|c| c.is_ascii_digit()) && p + 1 < rest.len() => (rest[..p].to_string(), ()),
+        _ => (rest, ()),
+    };
+    let (base, stride) = match rest.rfind("@s") {
+        Some(p) if rest[p + 2..].chars().all(|c| c.is_ascii_digit()) && p + 2 < rest.len() => (rest[..p].to_string(), rest[p + 2..].parse().ok()),
+        _ => (rest, None),
+    };
+    Some(ReplayTarget { base, stride })
+}
+
+fn shape_key(c: &Case) -> String {
+    format!("{}:{}", c.cv.name(), c.op.describe())
+}
+
+fn main() {
+    let mut cx = Ctx::from_args("C06", Level::FaultEnumeration);
+    cx.worker_rayon_threads = Some(1);
+    let seed = cx.seed;
+    let tier = cx.tier;
+    cx.assume("MockProver (with the trash-argument evaluation added by the C02 fix) is the satisfiability oracle; its agreement with the real verifier is C02's subject");
+    cx.assume("the group law of midnight-curves (Jubjub, BLS12-381 G1) and of the k256 wrapper is the reference; it is C11's subject");
+    cx.assume("prover freedom is bounded to <= 1 deviation from the library's witness generator (propagate and table-only modes; 2 deviations for the smallest operations) plus consistent lies about exposed values");
+    cx.assume("a public-input vector that is well-formed but not the canonical `as_public_input` image (emulated field element represented as v+m, identity flag with non-zero coordinates) is judged by the value it denotes: no verifier can hold such a vector, since statements are encoded off-circuit by `as_public_input`");
+
+    // ---- alphabets and self-checks of the reference / decoders
+    let alphs: Vec<Alph> = [Cv::Jub, Cv::Secp, Cv::Bls].into_iter().map(|cv| alphabet(cv, seed)).collect();
+    let mut selfcheck_evals = 0u64;
+    for a in &alphs {
+        let cv = a.cv;
+        for p in a.pts.iter().chain(a.outside.iter()) {
+            let (x, y, id) = p.rp.xy();
+            cx.require(id || on_curve(cv, &x, &y), &format!("alphabet point {} of {} satisfies the big-integer curve equation", p.label, cv.name()));
+            cx.require(id || RP::from_xy(cv, &x, &y) == Some(p.rp), "from_xy(xy(P)) == P");
+            if let Some(enc) = p.rp.encode() {
+                let ok = matches!(decode_point(cv, &enc), PtDecode::Point { p: q, canonical: true, .. } if q == p.rp);
+                cx.require(ok, &format!("point decoder inverts as_public_input on {} of {}", p.label, cv.name()));
+                // every single-limb +1 must change the decoded value or be rejected
+                for i in 0..enc.len() {
+                    let mut e2 = enc.clone();
+                    e2[i] += F::ONE;
+                    let same = matches!(decode_point(cv, &e2), PtDecode::Point { p: q, canonical: true, .. } if q == p.rp);
+                    cx.require(!same, "point decoder is injective on canonical encodings");
+                    selfcheck_evals += 1;
+                }
+            }
+            if !id {
+                for (c, v) in [("x", &x), ("y", &y)] {
+                    let enc = encode_coord(cv, v);
+                    cx.require(decode_coord(cv, &enc).as_ref() == Some(v), &format!("coordinate decoder inverts as_public_input ({c} of {})", p.label));
+                    if cv != Cv::Jub {
+                        let (lb, nb) = cv.limbs();
+                        cx.require(enc == encode_emulated(v, &cv.p(), lb, nb), "own limb encoder agrees with the library's");
+                    }
+                }
+            }
+            for s in a.scalars.iter().filter(|_| p.rp.in_subgroup()) {
+                cx.require(p.rp.mul_int(&s.v) == p.rp.mul_native(&s.v), &format!("integer double-and-add agrees with the library's scalar multiplication ({} * {})", s.label, p.label));
+                selfcheck_evals += 1;
+            }
+            cx.require(p.rp.mul_int(&(cv.r() + 3u32)) == p.rp.mul_int(&BigUint::from(3u32)) || !p.rp.in_subgroup(), "(r+3)P == 3P in the subgroup");
+        }
+        for p in &a.pts {
+            cx.require(p.rp.in_subgroup(), "alphabet points are in the prime-order subgroup");
+        }
+        for p in &a.outside {
+            cx.require(!p.rp.in_subgroup(), &format!("{} is outside the prime-order subgroup", p.label));
+        }
+        for s in &a.scalars {
+            let enc = encode_scalar(cv, &s.v);
+            cx.require(decode_scalar(cv, JUB_SCALAR_BITS, &enc).as_ref() == Some(&s.v), &format!("scalar decoder inverts as_public_input on {} of {}", s.label, cv.name()));
+        }
+        for (l, x, y) in &a.off_curve {
+            cx.require(RP::from_xy(cv, x, y).is_none(), &format!("{l} is off the curve"));
+        }
+    }
+    {
+        let j = &alphs[0];
+        let t8 = j.p("T8").rp;
+        cx.require(!t8.double().double().is_identity() && t8.double().double().double().is_identity(), "T8 has order 8");
+        let (x, y, _) = j.p("T2").rp.xy();
+        cx.require(x.is_zero() && y == Cv::Jub.p() - 1u32, "T2 = (0, -1)");
+        let b = &alphs[2];
+        let t3 = b.p("T3").rp;
+        cx.require(t3.double() == t3.neg() && !t3.is_identity(), "T3 has order 3");
+        // identity flag with non-zero coordinates decodes to the identity, flagged non-canonical
+        let mut enc = RP::identity(Cv::Secp).encode().unwrap();
+        enc[1] -= F::ONE;
+        cx.require(matches!(decode_point(Cv::Secp, &enc), PtDecode::Point { canonical: false, p, .. } if p.is_identity()), "non-canonical identity decodes as identity");
+        let mut enc = RP::generator(Cv::Secp).encode().unwrap();
+        enc[3] += F::ONE; // most significant limb of x: 2^64 at least -> out of range or another value
+        cx.require(!matches!(decode_point(Cv::Secp, &enc), PtDecode::Point { p, .. } if p == RP::generator(Cv::Secp)), "limb overflow is not decoded as the same point");
+        NONCANON_ID.store(0, Ordering::Relaxed);
+        NONCANON_FIELD.store(0, Ordering::Relaxed);
+    }
+    cx.add_counter("selfcheck_evaluations", selfcheck_evals);
+
+    // ---- cases
+    let mut cases: Vec<(String, Case)> = vec![];
+    let mut seen: BTreeSet<String> = BTreeSet::new();
+    for a in &alphs {
+        let full = match a.cv {
+            Cv::Jub | Cv::Secp => true,
+            Cv::Bls => tier.is_thorough(),
+        };
+        for c in cases_for(a, tier, seed, full) {
+            let k = c.key();
+            if seen.insert(k.clone()) {
+                cases.push((k, c));
+            }
+        }
+    }
+
+    let replay = replay_target();
+    if let Some(r) = &replay {
+        cases.retain(|(k, _)| *k == r.base);
+    }
+
+    // ---- k per (curve, operation shape)
+    let mut kreq: Vec<(String, Case)> = vec![];
+    for (_, c) in &cases {
+        let kk = shape_key(c);
+        if !kreq.iter().any(|(k, _)| *k == kk) {
+            kreq.push((kk, c.clone()));
+        }
+    }
+    let ks: Mutex<HashMap<String, u32>> = Mutex::new(HashMap::new());
+    cx.run_cases("min-k", &kreq, |c| {
+        let mut o = CaseOut::batch();
+        match vgad::min_k(c) {
+            Ok(k) => {
+                ks.lock().unwrap().insert(shape_key(c), k);
+                o.count(&format!("k={k}"), 1);
+            }
+            Err(p) => {
+                o.count("k-panic", 1);
+                o.viol(Viol::new(format!("{}:sizing-panic", c.op()), format!("cost model / min_k panicked: {p}"), json!({"shape": shape_key(c)})));
+            }
+        }
+        o
+    });
+    if replay.is_some() {
+        for (_, c) in &kreq {
+            if let Ok(k) = vgad::min_k(c) {
+                ks.lock().unwrap().insert(shape_key(c), k);
+            }
+        }
+    }
+    let ks = ks.into_inner().unwrap();
+    let kof = |c: &Case| ks.get(&shape_key(c)).copied();
+    let mut cases: Vec<(String, Case)> = cases.into_iter().filter(|(_, c)| kof(c).is_some()).collect();
+    // simplest first (the runner reports a cap by position)
+    cases.sort_by_key(|(_, c)| kof(c).unwrap());
+
+    // ---- phase 1: honest runs, instance binding, exposed-value lies
+    // full exploration (one complete re-verification per exposed value and lie) up to k_full and,
+    // in the thorough tier, for the first two cases of every heavier operation; otherwise the
+    // honest verdict + reference only
+    let k_full = tier.pick(10u32, 12u32);
+    let k_fidelity = 12u32;
+    let mut heavy_full: BTreeSet<String> = BTreeSet::new();
+    if tier.is_thorough() {
+        let mut cnt: HashMap<String, usize> = HashMap::new();
+        for (key, c) in &cases {
+            if kof(c).unwrap() > k_full && c.expect_sat() {
+                let e = cnt.entry(c.op()).or_default();
+                if *e < 2 {
+                    *e += 1;
+                    heavy_full.insert(key.clone());
+                }
+            }
+        }
+    }
+    let nassign: Mutex<HashMap<String, u64>> = Mutex::new(HashMap::new());
+    cx.run_cases("honest", &cases, |c| {
+        let mut out = CaseOut::batch();
+        let k = kof(c).unwrap();
+        let (outcome, n) = if k <= k_full || heavy_full.contains(&c.key()) {
+            let rep = vgad::explore_honest(c, k, &mut out);
+            out.counter("untamperable_assignments", rep.untamperable);
+            (rep.outcome, rep.n_assign)
+        } else {
+            out.count("honest-light", 1);
+            light_honest(c, k, &mut out)
+        };
+        if outcome == Outcome::Sat && c.expect_sat() && out.viols.is_empty() {
+            nassign.lock().unwrap().insert(c.key(), n);
+            // the exposed inputs of an honest run are the off-circuit encodings of the given inputs
+            if k <= k_fidelity {
+                let run = vgad::run_once(c, k, vec![], false);
+                for (i, (got, want)) in run.ins.iter().zip(c.honest_input_encoding()).enumerate() {
+                    let Some(want) = want else { continue };
+                    out.eval(if *got == want { "input-encoding:matches-as_public_input" } else { "input-encoding:differs" }, false);
+                    if *got != want {
+                        out.viol(Viol::new(
+                            format!("{}:in-circuit-encoding-differs-from-as_public_input", c.op()),
+                            format!("exposed input {i} is [{}] but the off-circuit as_public_input of the assigned value is [{}]", got.iter().map(hex).collect::<Vec<_>>().join(","), want.iter().map(hex).collect::<Vec<_>>().join(",")),
+                            json!({"case": c.key()}),
+                        ));
+                    }
+                }
+            }
+        }
+        out.counter("advice_assignments", n);
+        out.sample = Some(json!({"case": c.key(), "k": k, "honest": outcome.name(), "assignments": n}));
+        out
+    });
+    let mut nassign = nassign.into_inner().unwrap();
+    if replay.is_some() {
+        for (key, c) in &cases {
+            if !nassign.contains_key(key) && c.expect_sat() {
+                let run = vgad::run_once(c, kof(c).unwrap(), vec![], false);
+                if run.outcome == Outcome::Sat {
+                    nassign.insert(key.clone(), run.n_assign);
+                }
+            }
+        }
+    }
+
+    // ---- phase 2: 1 deviation, propagate mode
+    let all_faults = {
+        let mut f = vgad::default_faults(seed);
+        f.push(("neg", Fault::Neg));
+        f
+    };
+    let pick = |names: &[&str]| -> Vec<(&'static str, Fault)> { all_faults.iter().filter(|(n, _)| names.contains(n)).cloned().collect() };
+    // Jubjub: the point coordinates are single cells, `neg` maps a point to another point of the curve
+    let faults_native = if tier.is_thorough() { all_faults.clone() } else { pick(&["+1", "zero", "1-v", "neg", "random"]) };
+    // foreign: limbs and bits
+    let faults_foreign = if tier.is_thorough() { pick(&["+1", "-1", "zero", "1-v", "+2^64", "random", "neg"]) } else { pick(&["+1", "1-v", "random"]) };
+    // Index plan per case: Some(stride). Cases are visited simplest-first; `nth` counts the cases
+    // already planned for the same operation name on the same curve.
+    let plan = |c: &Case, n: u64, nth: usize, nth_shape: usize| -> Option<u64> {
+        let k = kof(c).unwrap();
+        let core = matches!(c.op, Op::Assign | Op::Double | Op::Negate | Op::Add);
+        let by_target = |t: u64| if n <= t { 1 } else { n.div_ceil(t) };
+        match (tier, c.cv) {
+            (Tier::Quick, Cv::Jub) => (nth < 1).then(|| if n <= 400 { 1 } else { by_target(48) }),
+            (Tier::Quick, Cv::Secp) => (nth < 1).then(|| {
+                if k >= 13 {
+                    by_target(10)
+                } else if core && n <= 600 {
+                    1
+                } else if core {
+                    by_target(256)
+                } else {
+                    by_target(40)
+                }
+            }),
+            (Tier::Quick, Cv::Bls) => None,
+            (Tier::Thorough, Cv::Jub) => {
+                if n <= 400 {
+                    (nth_shape < 3).then_some(1)
+                } else if matches!(c.op, Op::Msm { .. }) && nth == 0 {
+                    Some(1) // one complete sweep of a variable-base multiplication
+                } else {
+                    (nth < 6 && nth_shape < 1).then(|| by_target(160))
+                }
+            }
+            (Tier::Thorough, Cv::Secp) => {
+                if k >= 13 {
+                    (nth < 2 && nth_shape < 1).then(|| by_target(128))
+                } else if matches!(c.op, Op::Add) {
+                    (nth < 4).then_some(1)
+                } else {
+                    (nth < 1).then_some(1)
+                }
+            }
+            (Tier::Thorough, Cv::Bls) => {
+                if k >= 13 {
+                    (nth < 1).then(|| by_target(96))
+                } else if core && n <= 1000 {
+                    (nth < 1).then_some(1)
+                } else if core {
+                    (nth < 2).then(|| by_target(512))
+                } else {
+                    (nth < 1).then(|| by_target(64))
+                }
+            }
+        }
+    };
+    let mut fcases: Vec<(String, (Case, Vec<u64>))> = vec![];
+    let mut strides: BTreeMap<String, (u64, u64)> = BTreeMap::new();
+    let mut per_op: HashMap<String, usize> = HashMap::new();
+    let mut per_shape: HashMap<String, usize> = HashMap::new();
+    let mut tcases: Vec<(String, (Case, Vec<u64>))> = vec![];
+    // Which input tuple of an operation gets the sweep: the least degenerate one first (generic
+    // points and scalars rather than identity / 0 / 1), then — for `add` in the thorough tier —
+    // P=Q, P=-Q and an identity operand.
+    let boring = |c: &Case| -> usize {
+        let ins: usize = c
+            .ins
+            .iter()
+            .map(|v| match v {
+                V::Pt(p) => match p.label.as_str() {
+                    "P0" => 0,
+                    "P1" => 1,
+                    "-P0" | "G" | "2G" => 2,
+                    _ => 6,
+                },
+                V::Sc(s) => match s.label.as_str() {
+                    "s0" | "s1" => 0,
+                    "r-1" | "(r-1)/2" => 1,
+                    _ => 5,
+                },
+                V::Co(..) => 0,
+                V::Nat(x) => (*x == F::ZERO || *x == F::ONE) as usize * 5,
+                V::Bit(b) => !*b as usize,
+                V::Byte(y) => (*y == 0 || *y == 0xff) as usize,
+            })
+            .sum();
+        let op = match &c.op {
+            Op::Msm { terms, .. } => 10 * (terms.len() - 1) + 7 * terms.iter().filter(|(s, b)| matches!(s, SRef::Fixed(_)) || matches!(b, BRef::Fixed(_))).count(),
+            Op::HashToCurve(n) => 3 * n.abs_diff(2),
+            Op::MulByConst(k) => (k.label != "3") as usize * 3 + (k.v.bits() <= 1) as usize * 10,
+            Op::ScalarFromBytes(n) | Op::MulBytes(n) => 40 * n.abs_diff(32),
+            _ => {
+                // two point operands with the same value are a special case, not the generic one
+                let pts: Vec<&str> = c.ins.iter().filter_map(|v| if let V::Pt(p) = v { Some(p.label.as_str()) } else { None }).collect();
+                (pts.len() == 2 && pts[0] == pts[1]) as usize * 3
+            }
+        };
+        ins + op
+    };
+    let mut ordered: Vec<&(String, Case)> = cases.iter().collect();
+    ordered.sort_by_key(|(_, c)| boring(c));
+    for (key, c) in ordered {
+        let Some(n) = nassign.get(key).copied() else { continue };
+        let (opn, shp) = (c.op(), shape_key(c));
+        let nth = *per_op.get(&opn).unwrap_or(&0);
+        let nth_shape = *per_shape.get(&shp).unwrap_or(&0);
+        let Some(mut stride) = plan(c, n, nth, nth_shape) else { continue };
+        if let Some(r) = &replay {
+            stride = r.stride.unwrap_or(stride);
+        }
+        *per_op.entry(opn).or_default() += 1;
+        *per_shape.entry(shp).or_default() += 1;
+        // deterministic stride with an offset that depends on the case, so that different cases of
+        // one operation cover different residues
+        let off = if stride > 1 { vcore::fnv(key) % stride } else { 0 };
+        let idxs: Vec<u64> = (0..n).filter(|i| i % stride == off).collect();
+        strides.insert(key.clone(), (stride, n));
+        let per_chunk = if kof(c).unwrap() >= 13 { 1 } else if n > 1000 { 8 } else { 24 };
+        for (ci, chunk) in idxs.chunks(per_chunk).enumerate() {
+            fcases.push((format!("{key}@s{stride}#{ci}"), (c.clone(), chunk.to_vec())));
+        }
+        if c.cv == Cv::Jub {
+            for (ci, chunk) in idxs.chunks(per_chunk * 2).enumerate() {
+                tcases.push((format!("{key}@s{stride}#{ci}"), (c.clone(), chunk.to_vec())));
+            }
+        }
+    }
+    cx.extra(
+        "fault_plan",
+        json!({
+            "cases_swept": strides.len(),
+            "indices_total": fcases.iter().map(|(_, (_, i))| i.len() as u64).sum::<u64>(),
+            "assignments_total_of_swept_cases": strides.values().map(|(_, n)| *n).sum::<u64>(),
+        }),
+    );
+    fcases.sort_by_key(|(_, (c, _))| kof(c).unwrap());
+    tcases.sort_by_key(|(_, (c, _))| kof(c).unwrap());
+    cx.run_cases("faults", &fcases, |(c, idxs)| {
+        let mut out = CaseOut::batch();
+        vgad::explore_faults(c, kof(c).unwrap(), idxs, if c.cv == Cv::Jub { &faults_native } else { &faults_foreign }, &mut out);
+        out
+    });
+    // ---- phase 2b: 1 deviation, table-only mode (Jubjub: the witness code of the native chip
+    // panics on most propagated faults, so the gates themselves are probed here)
+    let tfaults: Vec<_> = all_faults.iter().filter(|(n, _)| if tier.is_thorough() { ["+1", "zero", "neg", "random"].contains(n) } else { ["+1", "zero"].contains(n) }).cloned().collect();
+    let free: Mutex<BTreeSet<String>> = Mutex::new(BTreeSet::new());
+    cx.run_cases("table-faults", &tcases, |(c, idxs)| {
+        let mut out = CaseOut::batch();
+        explore_table_faults(c, kof(c).unwrap(), idxs, &tfaults, &mut out, &free);
+        out
+    });
+    // ---- phase 3: 2 deviations for the smallest operations
+    let f2: Vec<_> = all_faults.iter().filter(|(n, _)| if tier.is_thorough() { ["+1", "zero", "neg"].contains(n) } else { ["+1", "neg"].contains(n) }).cloned().collect();
+    let mut pcases: Vec<(String, (Case, Vec<(u64, u64)>))> = vec![];
+    let max_n = tier.pick(40u64, 90u64);
+    let mut seen_ops: BTreeSet<String> = BTreeSet::new();
+    for (key, c) in &cases {
+        let Some(n) = nassign.get(key).copied() else { continue };
+        if n > max_n || n < 2 || c.cv != Cv::Jub {
+            continue;
+        }
+        if !tier.is_thorough() && !matches!(c.op, Op::Negate) {
+            continue;
+        }
+        // one non-identity input tuple per operation
+        if c.ins.iter().any(|v| matches!(v, V::Pt(p) if p.label == "Id")) || !seen_ops.insert(c.op()) {
+            continue;
+        }
+        let mut pairs = vec![];
+        for i in 0..n {
+            for j in i + 1..n {
+                pairs.push((i, j));
+            }
+        }
+        for (ci, chunk) in pairs.chunks(16).enumerate() {
+            pcases.push((format!("{key}#{ci}"), (c.clone(), chunk.to_vec())));
+        }
+    }
+    cx.run_cases("pairs", &pcases, |(c, pairs)| {
+        let mut out = CaseOut::batch();
+        vgad::explore_pairs(c, kof(c).unwrap(), pairs, &f2, &mut out);
+        out
+    });
+
+    // ---- phase 4: Jubjub point compression / decompression through ZKIR
+    let zcases: Vec<(String, zk::ZCase)> = {
+        let j = &alphs[0];
+        let q = Cv::Jub.p();
+        let mut v: Vec<zk::ZCase> = vec![];
+        for p in &j.pts {
+            let (x, y, _) = p.rp.xy();
+            for dir in [zk::Dir::Compress, zk::Dir::Decompress] {
+                v.push(zk::ZCase { dir, label: p.label.clone(), bytes: zk::repr_j(&x, &y), x: x.clone(), y: y.clone(), valid: true, idxs: vec![] });
+            }
+        }
+        // invalid encodings (decompression must fail)
+        let mut bad = |label: &str, bytes: Vec<u8>, x: BigUint, y: BigUint| v.push(zk::ZCase { dir: zk::Dir::Decompress, label: label.to_string(), bytes, x, y, valid: false, idxs: vec![] });
+        for p in &j.outside {
+            let (x, y, _) = p.rp.xy();
+            bad(&format!("outside-subgroup:{}", p.label), zk::repr_j(&x, &y), x, y);
+        }
+        let (x0, y0, _) = j.p("P0").rp.xy();
+        let mut id_sign = vec![0u8; 32];
+        id_sign[0] = 1;
+        id_sign[31] = 0x80;
+        bad("identity-with-sign-bit", id_sign, BigUint::zero(), BigUint::one());
+        bad("y=q+1-alias-of-identity", vcore::big::to_le(&(&q + 1u32), 32), BigUint::zero(), BigUint::one());
+        let mut off = 1u32;
+        let y_off = loop {
+            let y = (&y0 + off) % &q;
+            if jub_from_y(&y).is_none() {
+                break y;
+            }
+            off += 1;
+        };
+        bad("y-not-on-curve", vcore::big::to_le(&y_off, 32), x0.clone(), y_off.clone());
+        v.into_iter().map(|c| (c.key(), c)).collect()
+    };
+    let zks: Mutex<HashMap<String, (u32, u64)>> = Mutex::new(HashMap::new());
+    cx.run_cases("zkir-honest", &zcases, |c| {
+        let mut out = CaseOut::batch();
+        match zk::zk_min_k(c) {
+            Ok(k) => {
+                if let Some(n) = zk::zk_honest(c, k, &mut out) {
+                    zks.lock().unwrap().insert(c.key(), (k, n));
+                }
+            }
+            Err(p) => out.viol(Viol::new(format!("zkir:{:?}(JubjubPoint):sizing-panic", c.dir), format!("min_k panicked: {p}"), json!({"case": c.key()}))),
+        }
+        out
+    });
+    let mut zks = zks.into_inner().unwrap();
+    if let Some(r) = &replay {
+        for (key, c) in &zcases {
+            if *key == r.base && c.valid && !zks.contains_key(key) {
+                if let Ok(k) = zk::zk_min_k(c) {
+                    if let Some(n) = zk::zk_honest(c, k, &mut CaseOut::batch()) {
+                        zks.insert(key.clone(), (k, n));
+                    }
+                }
+            }
+        }
+    }
+    let zfaults = if tier.is_thorough() { all_faults.clone() } else { pick(&["+1", "1-v", "neg", "random"]) };
+    let mut zf: Vec<(String, zk::ZCase)> = vec![];
+    let mut zstride: Vec<String> = vec![];
+    for (key, c) in &zcases {
+        if c.label != "P0" {
+            continue;
+        }
+        let Some((_, n)) = zks.get(key).copied() else { continue };
+        let mut stride = if tier.is_thorough() { 1 } else { n.div_ceil(64) };
+        if let Some(r) = &replay {
+            stride = r.stride.unwrap_or(stride);
+        }
+        if stride > 1 {
+            zstride.push(format!("{key}: every {stride}-th of {n} assignments"));
+        }
+        let idxs: Vec<u64> = (0..n).filter(|i| i % stride == 0).collect();
+        for (ci, chunk) in idxs.chunks(4).enumerate() {
+            let mut cc = c.clone();
+            cc.idxs = chunk.to_vec();
+            zf.push((format!("{key}@s{stride}#{ci}"), cc));
+        }
+    }
+    cx.run_cases("zkir-faults", &zf, |c| {
+        let mut out = CaseOut::batch();
+        let Some((k, _)) = zks.get(&c.key()).copied() else { return out };
+        zk::zk_faults(c, k, &c.idxs, &zfaults, tier.is_thorough(), &mut out);
+        out
+    });
+    for s in &zstride {
+        cx.note(format!("fault stride — {s}"));
+    }
+
+    // ---- rule, notes, caps
+    let strided: Vec<String> = strides.iter().filter(|(_, (s, _))| *s > 1).map(|(k, (s, n))| format!("{k}: every {s}-th of {n} assignments")).collect();
+    let full_cnt = strides.values().filter(|(s, _)| *s == 1).count();
+    cx.set_rule(&format!(
+        "curves {{Jubjub native chip, secp256k1 and BLS12-381 G1 foreign chips{}}} x operation registry (assign, assign_fixed, point_from_coordinates on/off curve and \
+         outside the subgroup, add over the full product of the point alphabet, double, negate, coordinates, equality/zero tests and assertions, select/cond_swap/cond_assert_equal, \
+         mul_by_constant over boundary constants incl. 2^64..2^128, msm / msm_by_bounded_scalars with 1..3 terms{} built so that the accumulator hits the identity or equals the next addend, \
+         shared base / scalar variables and fixed scalars / bases; Jubjub scalars from little-endian bytes and from a native element with values >= r; hash_to_curve on 0..4 inputs; \
+         BLS subgroup assertion, and its three constituent public calls re-issued with a prover-chosen cofactor root for a point outside G1) x point alphabet {{Id, G, 2G, P0, -P0, P1}} + points outside the prime-order subgroup (Jubjub 8-, 4-, 2-torsion and translates as coordinates; BLS order-3 \
+         point (0,2) and a large-order point outside G1) x scalar alphabet {{0, 1, 2, r-1, (r-1)/2, 2^128, two seeded}}. Per case: honest run (must be satisfiable with the reference group-law \
+         result on the decoded exposed vector, or not satisfiable if out of domain); for k <= {k_full}: every single-position edit of the exposed vector and every exposed value changed \
+         together with its copy cycle; honest exposed inputs compared with the library's off-circuit as_public_input. 1-deviation faults (native, foreign) = {:?} in propagate mode on {} cases with stride 1 and {} \
+         cases on a printed stride (see notes), table-only mode {:?} on the Jubjub cases, 2 deviations {:?}^2 on all index pairs of the smallest Jubjub operations. \
+         Jubjub point compression / decompression through ZKIR programs (Load, IntoBytes(32) / FromBytes(JubjubPoint), Publish): reference statement accepted and equal to the \
+         off-circuit interpreter's, invalid encodings (low-order points, identity with sign bit, y >= q, y off the curve) rejected, a fixed list of wrong statements (sign bit flipped, point negated, \
+         byte +1, y negated) rejected with the honest witness and under every 1-deviation fault of the swept indices. \
+         A case is one (curve, operation, parameters, inputs); evaluations count MockProver verdicts.",
+        if tier.is_thorough() { "" } else { " (BLS: honest runs only, reduced list)" },
+        if tier.is_thorough() { " (Jubjub up to 8)" } else { "" },
+        (faults_native.iter().map(|f| f.0).collect::<Vec<_>>(), faults_foreign.iter().map(|f| f.0).collect::<Vec<_>>()),
+        full_cnt,
+        strided.len(),
+        tfaults.iter().map(|f| f.0).collect::<Vec<_>>(),
+        f2.iter().map(|f| f.0).collect::<Vec<_>>(),
+    ));
+    for s in &strided {
+        cx.note(format!("fault stride — {s}"));
+    }
+    if !strided.is_empty() || !zstride.is_empty() {
+        cx.cap(format!("1-deviation exploration used a stride > 1 on {} case(s) (listed in the notes); those operations are not covered cell by cell", strided.len() + zstride.len()));
+    }
+    let light = cx.class_count("honest:honest-light");
+    if light > 0 {
+        cx.cap(format!("{light} case(s) with k > {k_full} got the honest verdict + reference only (no instance-binding / exposed-value-lie sweep)"));
+    }
+    if !tier.is_thorough() {
+        cx.cap("quick tier: BLS12-381 reduced to honest runs of a short list; foreign msm / full-size mul_by_constant fault sweeps on a coarse stride; Jubjub msm sizes 1..3".to_string());
+    } else {
+        cx.cap("foreign msm has ~7*10^4 (secp256k1) / ~1.2*10^5 (BLS) advice assignments at 0.7-2 s per verdict: the complete cell sweep of one operand pair asked for by the design does not fit; a stride is used instead".to_string());
+    }
+    let free = free.into_inner().unwrap();
+    cx.note(format!("cells whose table value is not constrained (table-only fault accepted, exposed vector unchanged): {}", if free.is_empty() { "none".to_string() } else { free.iter().cloned().collect::<Vec<_>>().join("; ") }));
+    cx.note(format!(
+        "accepted exposed vectors that were well-formed but not canonical: {} emulated field element(s) in the v+m form, {} identity flag(s) with non-zero coordinates (judged by denoted value)",
+        NONCANON_FIELD.load(Ordering::Relaxed),
+        NONCANON_ID.load(Ordering::Relaxed)
+    ));
+    cx.note("AssignedScalarOfNativeCurve: the in-circuit public-input encoding packs the actual bit vector (2 elements for 255/256-bit scalars from bytes or natives) while the off-circuit as_public_input always emits one 252-bit element; not judged here (no operation constrains such a scalar as a public input by itself)");
+    cx.note("foreign msm draws its blinding point from OsRng: advice values differ between runs, verdicts do not (a violation is re-executed by the runner before it is believed)");
+
+    // ---- anti-vacuity
+    // (on a loaded machine the wall budget may cut the later groups: that is a reported cap, the
+    // counts below are then not required)
+    let in_budget = cx.remaining_s() > 0.0;
+    let sat = cx.class_count("honest:honest:sat");
+    let unsat = cx.class_count("honest:honest:unsat") + cx.class_count("honest:honest:synth-err") + cx.class_count("honest:honest:crash-unsat");
+    cx.require(!in_budget || (sat > 100 && unsat > 10), "need both satisfiable and out-of-domain cases");
+    cx.require(!in_budget || cx.class_count("faults:fault:unsat") > 100, "propagated faults must be rejected somewhere");
+    // (the later groups may be cut by the wall budget on a loaded machine: that is a reported cap, not vacuity)
+    cx.require(!in_budget || cx.class_count("table-faults:tfault:unsat") > 100, "table faults must be rejected somewhere");
+    cx.require(!in_budget || cx.class_count("honest:cycle-lie:rejected") > 100, "exposed-value lies must be rejected somewhere");
+    cx.require(!in_budget || cx.class_count("zkir-faults:zkir-fault:wrong-statement:unsat") > 100, "wrong compression statements must be rejected under faults");
+    cx.require(sat > 0, "at least one honest satisfiable case");
+    let _ = catch(|| ());
+    cx.finish()
 }
